@@ -44,21 +44,30 @@ LEVEL_TEXT = (
     "access, membership test and private helpers inlined (so a base-class get() is judged once per subclass against that "
     "subclass's __getitem__, which for the multi dicts also raises for a key that is present without values), lets no "
     "explicitly raised KeyError / BadRequestKeyError / LookupError / IndexError escape on any path - also when the "
-    "exception object is chosen first and raised later; (R8.10) for every class with MultiDict in its MRO the reduction "
+    "exception object is chosen first and raised later; a raising path that repeats, with the same arguments and no change "
+    "of the object in between, a call that had returned normally earlier on the path (membership test that ran the lookup, "
+    "then the lookup) is infeasible and not counted; (R8.10) for every class with MultiDict in its MRO the reduction "
     "pickle uses (__reduce_ex__ / __reduce__ as the MRO resolves it, else __getstate__ with __setstate__; values through "
-    "locals and private helpers resolved) builds its state from a read that carries every value of every key - "
+    "locals, private and module-level helpers, other methods of the class, super() and generator helpers followed; a "
+    "state that a loop fills element by element is judged by a def/use closure on the AST: which reads of the object "
+    "reach the returned value through bindings, loop targets and container growth, all pairs stored per key into a dict "
+    "counting as the first-value view again) builds its state from a read that carries every value of every key - "
     "items(multi=True) not collapsed by dict(), lists() / listvalues() / getlist() / to_dict(flat=False), the raw dict of "
     "lists (dict.items(self) ...), a storage attribute, a copy of the multi dict - and not only from the first-value view "
     "(dict(self), items(), values(), to_dict(), self[key]). It decides these clauses on all paths, not conformance of every read "
     "with the abstract model after every history; generator bodies of callees and implicit exceptions are not "
     "followed; for R8.7 a scan spelled as a comprehension / generator expression / next() / any() is complete by "
     "construction and what is then done with its result (e.g. consulting only the first dict that has the key) is not "
-    "decided, nor is which value of a wrapped dict is read or whether the reads of one wrapped dict are complete; for R8.8 "
+    "decided, nor is which value of a wrapped dict is read or whether the reads of one wrapped dict are complete (the list "
+    "handed whole to a call, f(*self.dicts), counts as a read of every wrapped dict unless it is sliced / reordered first), "
+    "and a walk of the list by index (while i < len(self.dicts)) is not judged (exit 2); for R8.8 "
     "removal deeper than one helper level, inside comprehensions or by recursion is not seen, and whether two matching "
     "elements can ever be adjacent is not considered (the walk must be right for every list); for R8.9 exceptions raised "
     "implicitly by builtins or by objects of unknown class (the wrapped dicts of the combined view, the conversion "
     "callable) are not followed; for R8.10 whether the constructor / __setstate__ rebuilds the object from that state is "
-    "not decided, nor is the pickling of Headers / HeaderSet (default reduction of their attributes)."
+    "not decided, nor is the pickling of Headers / HeaderSet (default reduction of their attributes); a path whose state "
+    "does not mention the object at all is accepted when another path of the reduction reads it completely (which objects "
+    "take the constant path is not decided), and in the flow-insensitive mode one complete read reaching the state suffices."
 )
 TRUSTED = ["CPython ast", "typeshed method tables of list/dict/MutableSet/MutableMapping/MutableSequence (bundled with the repo's mypy, read as text)", "Python MRO (C3) and super() semantics", "builtin container semantics: dict.pop / set.discard / remove change the container iff the key is present, setdefault iff it is absent"]
 ASSUMPTIONS = ["private helpers (single underscore) are reachable only through public methods of the same class", "constructors and the pickle/copy protocol are exempt from R8.1 (they initialise a new object)", "R8.7: the list of wrapped dicts holds mapping objects (never None) and a private sentinel object of the package (_missing) is never a value stored in a wrapped dict", "R8.8: a container may hold two adjacent elements that match a removal condition (no uniqueness invariant is assumed for a list walked by a removal loop)", "R8.10: the documented reader names of the multi dict model (items(multi=...), lists, listvalues, getlist, to_dict(flat=...), copy / deepcopy) mean what the model says"]
@@ -406,6 +415,8 @@ def _fresh(term: str | None) -> bool:
         d = dotted(n.func)
         if d in ("list", "sorted"):
             return True
+        if d == "sum" and len(n.args) == 2 and not n.keywords:
+            return _fresh(H.text(n.args[1]))  # sum(lists, []) concatenates into a new list (the start value when there is nothing to add)
         if isinstance(n.func, ast.Attribute) and n.func.attr == "copy" and not n.args:
             return True
     if isinstance(n, ast.Subscript) and isinstance(n.slice, ast.Slice):
